@@ -23,6 +23,18 @@ CHECKS = {
              "model behaviour and an open finding's trigger is present (D2, D21, D31).",
         technique="TLA+ model checking (TLC) of Render/Reader composition + spec->code replay + trace validation (DocTrace.tla)",
         design="§6 C01, §12"),
+    "C02": dict(
+        level="model_checking",
+        text="Every realisable document of the bounded Render/Reader model (family S), the text family of C01 (structure-looking words at "
+             "wrap points in 8 container paths, family T) and a corpus of 20 construct-rich documents under the option cube (width x {fill, "
+             "semantic} x cleanups x smartquotes x ellipses x list-spacing, and plaintext; family R) are formatted twice by the real "
+             "reformat_text, a subset through the CLI with --inplace twice. spec/IdemTrace.tla validates each pair: equal byte digests "
+             "(verdict), equal abstracted lines, and for family S the second pass is itself a behaviour of the renderer machine "
+             "(Render(Read(Render(d))) = Render(d) in the model).",
+        note="Families S and T are exhaustive within their bounds; family R is a fixed corpus (not exhaustive). An idempotence failure is "
+             "excused only as a consequence of an open C01 finding (first pass changed the structure AND the finding's trigger is present).",
+        technique="TLA+ model checking (TLC) of the renderer/reader composition + two-pass replay + trace validation (IdemTrace.tla)",
+        design="§6 C02, §12"),
     "C05": dict(
         level="model_checking",
         text="TLC explores every behaviour of the implementation-shaped greedy-fill machine (spec/Wrap.tla) within "
